@@ -43,6 +43,9 @@ pub struct Case {
     /// vertices no face references, each inserted at a position of the vertex list (face indices shift accordingly)
     #[serde(default)]
     pub orphans: Vec<(u16, P3)>,
+    /// zero-area faces [a, a, b] over existing vertices, each inserted at a position of the face list
+    #[serde(default)]
+    pub slivers: Vec<(u16, u16, u16)>,
 }
 
 const REPEATS: usize = 6;
@@ -60,20 +63,20 @@ impl Property for C14 {
     type Case = Case;
     const ID: &'static str = "C14";
     fn rule() -> &'static str {
-        "a case is a history: a mesh (grids with creases/waves, L-shapes, tubes, fans, boxes, prisms, icospheres; adjacent faces share vertices but differ in normal), a reference mesh posed nearby (offset copies, tilted planes, partial overlaps), a quarter of the meshes carrying 1-3 vertices that no face references, a starting selection (none / all / arbitrary index set) and 1-5 steps of (facing | near-mesh with distance, optional planar and optional angle tolerance, all-vertices or any-vertex) x (Add | Remove | Keep). Model: each face's predicate is evaluated from scratch by the harness (own closest-point scan; three-valued with a 1e-9 don't-care band) and combined by set union / difference / intersection; the library result is compared after every step and recomputed 6 times (hash order). Non-trivial: >=2 steps, at least one near-mesh step with an angle tolerance, and the selection changes in >=2 steps. Distinct = distinct canonical JSON."
+        "a case is a history: a mesh (grids with creases/waves, L-shapes, tubes, fans, boxes, prisms, icospheres; adjacent faces share vertices but differ in normal), a reference mesh posed nearby (offset copies, tilted planes, partial overlaps), a quarter of the meshes carrying 1-3 vertices that no face references, a fifth carrying 1-3 zero-area faces (a repeated vertex index), a starting selection (none / all / arbitrary index set) and 1-5 steps of (facing | near-mesh with distance, optional planar and optional angle tolerance, all-vertices or any-vertex) x (Add | Remove | Keep). Model: each face's predicate is evaluated from scratch by the harness (own closest-point scan; three-valued with a 1e-9 don't-care band) and combined by set union / difference / intersection; the library result is compared after every step and recomputed 6 times (hash order). Non-trivial: >=2 steps, at least one near-mesh step with an angle tolerance, and the selection changes in >=2 steps. Distinct = distinct canonical JSON."
     }
     fn cases(t: Tier) -> u32 {
         t.pick(240_000, 1_000_000)
     }
     fn expected_labels() -> Vec<&'static str> {
-        vec!["start_none", "start_all", "start_indices", "facing", "near", "near_angle", "near_planar", "all_points", "any_point", "add", "remove", "keep", "create_mesh", "changed>=2", "unreferenced_vertices"]
+        vec!["start_none", "start_all", "start_indices", "facing", "near", "near_angle", "near_planar", "all_points", "any_point", "add", "remove", "keep", "create_mesh", "changed>=2", "unreferenced_vertices", "zero_area_faces"]
     }
     fn strategy(t: Tier) -> BoxedStrategy<Case> {
         let gmax = t.pick(6, 10);
         let target = prop_oneof![3 => open_kind(gmax), 2 => closed_kind(1)].boxed();
         let reference = prop_oneof![3 => grid_kind(6, false), 1 => closed_kind(1)].boxed();
-        (clean_mesh(target, 1.5), clean_mesh(reference, 1.0), prop_oneof![Just(Start::None), Just(Start::All), prop::collection::vec(any::<u16>(), 0..12).prop_map(Start::Indices)], prop::collection::vec((criterion(), prop::sample::select(vec![Op::Add, Op::Remove, Op::Keep])), 1..6), prop_oneof![3 => Just(vec![]), 1 => prop::collection::vec((any::<u16>(), p3(3.0)), 1..4)])
-            .prop_map(|(mesh, reference, start, steps, orphans)| Case { mesh, reference, start, steps, orphans })
+        (clean_mesh(target, 1.5), clean_mesh(reference, 1.0), prop_oneof![Just(Start::None), Just(Start::All), prop::collection::vec(any::<u16>(), 0..12).prop_map(Start::Indices)], prop::collection::vec((criterion(), prop::sample::select(vec![Op::Add, Op::Remove, Op::Keep])), 1..6), prop_oneof![3 => Just(vec![]), 1 => prop::collection::vec((any::<u16>(), p3(3.0)), 1..4)], prop_oneof![4 => Just(vec![]), 1 => prop::collection::vec((any::<u16>(), any::<u16>(), any::<u16>()), 1..4)])
+            .prop_map(|(mesh, reference, start, steps, orphans, slivers)| Case { mesh, reference, start, steps, orphans, slivers })
             .boxed()
     }
     fn check(case: &Case) -> Verdict {
@@ -222,6 +225,18 @@ fn check(case: &Case) -> Verdict {
             }
         }
     }
+    // zero-area faces (a repeated vertex index) are legal members of a mesh: they have no normal, so they face no
+    // direction and pass no angle test, but distance and planar tolerances are about their vertices and apply as usual
+    for (pos, a, b) in &case.slivers {
+        let nv = bm.v.len();
+        let (a, b) = (idx(*a, nv) as u32, idx(*b, nv) as u32);
+        if a != b {
+            let k = idx(*pos, bm.f.len() + 1);
+            bm.f.insert(k, [a, a, b]);
+        }
+    }
+    cx.label_if(!case.slivers.is_empty(), "zero_area_faces");
+    let msoup = bm.soup();
     let mesh = bm.mesh(false);
     let reference = br.mesh(false);
     let nf = msoup.f.len();
